@@ -6,8 +6,9 @@ package reservation
 // PreFilter + Reserve of its reserve pod (assumeReservation) and becomes Available by the status write Bind performs
 // (reservationutil.SetReservationAvailable) delivered through reservationEventHandler.OnUpdate; an owner pod is
 // scheduled by BeforePreFilter (real owner / name matching over the cache) -> PreFilter -> Reserve (NominateReservation
-// + assumePods) -> PreBind (SetReservationAllocated on the pod). Informer events of bound / terminated / deleted pods
-// and of expiring / deleted reservations go through the real handlers. BFS over such histories; every reached state
+// + assumePods) -> PreBind (SetReservationAllocated on the pod). Informer events of bound / deleted pods (a terminated
+// pod leaves the scheduler's filtered pod watch, i.e. is a delete too) and of expiring / deleted reservations go through
+// the real handlers. BFS over such histories; every reached state
 // is a cut point "after a bind".
 // Restart path: a FRESH reservationCache + handlers fed ONLY the persisted objects (Reservation objects + pod objects
 // carrying the reservation-allocated annotation) in EVERY permutation (so both reservation-before-its-pods and
@@ -84,8 +85,10 @@ func (f *c19ResvSnapshot) List() ([]fwktype.NodeInfo, error) {
 	}
 	return out, nil
 }
-func (f *c19ResvSnapshot) HavePodsWithAffinityList() ([]fwktype.NodeInfo, error)             { return nil, nil }
-func (f *c19ResvSnapshot) HavePodsWithRequiredAntiAffinityList() ([]fwktype.NodeInfo, error) { return nil, nil }
+func (f *c19ResvSnapshot) HavePodsWithAffinityList() ([]fwktype.NodeInfo, error) { return nil, nil }
+func (f *c19ResvSnapshot) HavePodsWithRequiredAntiAffinityList() ([]fwktype.NodeInfo, error) {
+	return nil, nil
+}
 func (f *c19ResvSnapshot) Get(nodeName string) (fwktype.NodeInfo, error) {
 	ni, ok := f.infos[nodeName]
 	if !ok {
